@@ -23,7 +23,9 @@ def exemptIds : List (String × Nat) := [
 ]
 
 /-- ids the emitter table contains only because the translator's string evaluation over-approximates
-    (each one justified by reading the code, docs/C28.md §Infeasible): no execution produces them -/
+    (each one justified by reading the code, docs/C28.md §Exemptions): no execution produces them.
+    Not a theorem: every entry has a structural guard in the translator (obligation `T:infeasible-ids-guards`, the code shape the
+    argument relies on) and a negative witness in corpus/C28 (`T:infeasible-ids-stay-unreported`). -/
 def infeasibleIds : List (String × Nat) := [
   ("constVariableCallback", 0x636f6e73745661726961626c6543616c6c6261636b),
   ("iterateByValueCallback", 0x69746572617465427956616c756543616c6c6261636b),
@@ -91,7 +93,9 @@ def exemptKinds : List RuleKind :=
 def passes : Nat := 2
 
 /-- functions reached from CppCheck::getErrorMessages in the extracted call graph (bit set): the numeral the translator
-    computed; `reached_eq` re-computes it in the kernel -/
+    computed; `reached_eq` re-computes it in the kernel.  The graph is STATIC: a call under a condition counts, so `reached`
+    over-approximates what an execution of getErrorMessages calls; the dynamic fact is `ids_subset_partial`, which compares
+    with what the built binary really prints. -/
 def reached : Nat := reachedLit
 
 /-- ids of the emitters whose function is reached -/
